@@ -63,6 +63,20 @@ func GenB(t *rapid.T) BPlan {
 
 	sort.SliceStable(p.Script, func(i, j int) bool { return p.Script[i].AtMs < p.Script[j].AtMs })
 
+	// template: one key that keeps failing for more than half a virtual hour (backoff must keep its shape however
+	// long the item has been failing), optionally followed by a success and further failures
+	if rapid.IntRange(0, 7).Draw(t, "longfail") == 0 {
+		p.Conc = 1
+		p.Script = []BOp{{AtMs: 0, K: "create", ID: 0}}
+		p.Outcomes = nil
+
+		for i, n := 0, rapid.IntRange(30, 50).Draw(t, "nfail"); i < n; i++ {
+			p.Outcomes = append(p.Outcomes, "err")
+		}
+
+		p.Outcomes = append(p.Outcomes, rapid.SliceOfN(rapid.SampledFrom([]string{"ok", "err", "err", "requeue"}), 0, 6).Draw(t, "tail")...)
+	}
+
 	return p
 }
 
